@@ -281,6 +281,12 @@ func c02Context(ctx string, id int, sg c02Sig, R, E string) (decl string, ok boo
 		return fmt.Sprintf("func %s(%s) %s {\n%s\tr := %s\n\treturn r\n}\n", fn, params, R, pro, E), true
 	case "ifc":
 		return fmt.Sprintf("func %s(%s) interface{} {\n%s\tvar r interface{} = %s\n\treturn r\n}\n", fn, params, pro, E), true
+	case "ifa":
+		// assignment to an existing interface-typed variable; a function whose statement has no
+		// closure stops silently (ok stays false), a reflect misuse panics: both are observed
+		return fmt.Sprintf("func %s(%s) (r interface{}, ok bool) {\n%s\tvar q interface{}\n\tq = %s\n\tr = q\n\tok = true\n\treturn\n}\n\n"+
+			"func w%d(%s) (res interface{}) {\n\tdefer func() {\n\t\tif e := recover(); e != nil {\n\t\t\tres = pan(e)\n\t\t}\n\t}()\n\tr, ok := %s(%s)\n\tif !ok {\n\t\treturn stopTok{}\n\t}\n\treturn r\n}\n",
+			fn, params, pro, E, id, params, fn, sg.args), true
 	case "arg":
 		return fmt.Sprintf("func %s(%s) %s {\n%s\treturn id_%s(%s)\n}\n", fn, params, R, pro, R, E), true
 	case "glob":
@@ -415,11 +421,15 @@ func (g *c02Gen) binarySites(cat, op string, k, kc *c02Kind, xs, ys []c02V, ctxs
 			if isCmpd && form[0] != 'v' {
 				continue // the left operand of op= is a variable
 			}
+			if ctx == "ifa" && (cat == "shift" || op == "%") && region != "iface-assign" {
+				continue // known finding: exercised by a small region stream only
+			}
 			for _, v := range variants {
 				s := &c02Site{Cat: cat, Op: op, K: k, K2: kc, Form: form, Ctx: ctx, Region: region, Const: v.cv, Xs: v.loopX, Ys: v.loopY, ByIndex: byIndex}
 				if k.Name == "complex64" && v.cv != nil {
 					s.Region = "complex64-const"
 				}
+
 				g.nextID++
 				s.ID = g.nextID
 				cdecl := ""
@@ -462,7 +472,9 @@ func (g *c02Gen) binarySites(cat, op string, k, kc *c02Kind, xs, ys []c02V, ctxs
 				}
 				s.Decl = cdecl + decl
 				call := fmt.Sprintf("s%d(%s)", s.ID, v.callArgs)
-				if mayPanic {
+				if ctx == "ifa" {
+					call = fmt.Sprintf("w%d(%s)", s.ID, v.callArgs)
+				} else if mayPanic {
 					s.Decl += c02Try(s.ID, v.sg)
 					call = fmt.Sprintf("t%d(%s)", s.ID, v.callArgs)
 				}
@@ -544,6 +556,12 @@ func (g *c02Gen) unarySites(op string, k *c02Kind, xs []c02V, ctxs []string) {
 		}
 		s.Decl = decl
 		s.Call = fmt.Sprintf("s%d(x)", s.ID)
+		if ctx == "ifa" {
+			s.Call = fmt.Sprintf("w%d(x)", s.ID)
+			if op != "+" {
+				s.Region = "iface-assign"
+			}
+		}
 		for _, x := range xs {
 			if k.Class == "bool" {
 				s.Expect = append(s.Expect, c02Tok(!x.B))
@@ -601,6 +619,9 @@ func (g *c02Gen) convSites(from, to *c02Kind, xs []c02V, ctxs []string) {
 		}
 		s.Decl = decl
 		s.Call = fmt.Sprintf("s%d(x)", s.ID)
+		if ctx == "ifa" {
+			s.Call = fmt.Sprintf("w%d(x)", s.ID)
+		}
 		g.sites = append(g.sites, s)
 	}
 	// typed constant operand, only where the constant conversion is legal in Go (representable)
@@ -669,8 +690,8 @@ func c02ConstConvertible(v c02V, to *c02Kind) bool {
 // ---------------------------------------------------------------- the enumeration
 
 func (g *c02Gen) enumerate() {
-	valCtx := []string{"ret", "asg", "def", "ifc", "arg", "glob"}
-	cmpCtx := []string{"ret", "asg", "def", "ifc", "arg", "if", "for", "sw"}
+	valCtx := []string{"ret", "asg", "def", "ifc", "ifa", "arg", "glob"}
+	cmpCtx := []string{"ret", "asg", "def", "ifc", "ifa", "arg", "if", "for", "sw"}
 	cmpd := []string{"cmpd", "cmpd-map", "cmpd-idx", "cmpd-fld", "cmpd-ptr"}
 	allForms := []string{"vv", "lv", "vl", "cv", "vc", "uv", "vu"}
 	salt := 0
@@ -684,6 +705,17 @@ func (g *c02Gen) enumerate() {
 		for _, op := range c02CmpOps {
 			salt++
 			g.binarySites("cmp", op, k, nil, xs, xs, cmpCtx, nil, allForms, "", salt)
+		}
+		{
+			// region stream: q = x % y, q = x << s with q an interface variable (known finding: no closure)
+			sub := []c02V{xs[0], xs[5], xs[len(xs)-1]}
+			g.binarySites("bin", "%", k, nil, sub, sub, []string{"ifa"}, nil, []string{"vv", "vc"}, "iface-assign", salt)
+			for _, op := range []string{"<<", ">>"} {
+				for _, kc := range []*c02Kind{c02KindByName("uint"), c02KindByName("int")} {
+					cs := c02CountValues(kc, false)
+					g.binarySites("shift", op, k, kc, sub, []c02V{cs[0], cs[4], cs[len(cs)-1]}, []string{"ifa"}, nil, []string{"vv", "vl"}, "iface-assign", salt)
+				}
+			}
 		}
 		for _, op := range []string{"<<", ">>"} {
 			for _, kc := range c02IntKinds {
@@ -728,13 +760,13 @@ func (g *c02Gen) enumerate() {
 		xs := c02CplxValues(k)
 		for _, op := range c02FloatOps {
 			salt++
-			g.binarySites("bin", op, k, nil, xs, xs, []string{"ret", "asg", "ifc", "arg"}, []string{"cmpd", "cmpd-map"}, []string{"vv", "lv", "vl", "cv", "vc"}, "", salt)
+			g.binarySites("bin", op, k, nil, xs, xs, []string{"ret", "asg", "ifc", "ifa", "arg"}, []string{"cmpd", "cmpd-map"}, []string{"vv", "lv", "vl", "cv", "vc"}, "", salt)
 		}
 		for _, op := range []string{"==", "!="} {
 			salt++
-			g.binarySites("cmp", op, k, nil, xs, xs, []string{"ret", "asg", "ifc", "if"}, nil, []string{"vv", "lv", "vl", "cv", "vc"}, "", salt)
+			g.binarySites("cmp", op, k, nil, xs, xs, []string{"ret", "asg", "ifc", "ifa", "if"}, nil, []string{"vv", "lv", "vl", "cv", "vc"}, "", salt)
 		}
-		g.unarySites("-", k, xs, []string{"ret", "asg", "ifc"})
+		g.unarySites("-", k, xs, []string{"ret", "asg", "ifc", "ifa"})
 		g.unarySites("+", k, xs, []string{"ret"})
 		g.incdecSites(k, xs)
 	}
@@ -760,7 +792,7 @@ func (g *c02Gen) enumerate() {
 		g.unarySites("!", c02BoolKind, xs, cmpCtx)
 	}
 	// conversions
-	convCtx := []string{"ret", "asg", "ifc", "arg"}
+	convCtx := []string{"ret", "asg", "ifc", "ifa", "arg"}
 	num := append(append([]*c02Kind{}, c02IntKinds...), c02FloatKinds...)
 	for _, from := range num {
 		xs := c02Values(from)
@@ -1060,6 +1092,15 @@ func c02KnownDefect(s *c02Site, i int, ref string) (region, predicted string) {
 			return "", ""
 		}
 		return region, predicted
+	case "iface-assign":
+		// no closure: the function stops; `q = !x` stores a bool into the interface slot with SetBool and panics in reflect.
+		// integer kinds are decided by model Y in Coq
+		if s.K.Class == "bool" {
+			return region, "P:other"
+		}
+		if !s.K.isInt() {
+			return region, "STOP"
+		}
 	case "":
 		if s.Ctx == "arg" && (s.K.Class == "float" || s.K.Class == "complex") {
 			if z, ok := c02ZeroCleared(ref); ok {
@@ -1073,7 +1114,7 @@ func c02KnownDefect(s *c02Site, i int, ref string) (region, predicted string) {
 // ---------------------------------------------------------------- Coq rendering of integer cases
 
 func c02CoqForm(s *c02Site) string {
-	if s.Ctx == "ifc" {
+	if s.Ctx == "ifc" || s.Ctx == "ifa" {
 		return "FIface"
 	}
 	switch s.Form {
@@ -1147,7 +1188,9 @@ func c02CoqCase(id int, s *c02Site, i int, impl, ref string) (kind, text string)
 	resK := s.K
 	switch s.Cat {
 	case "bin", "shift":
-		if strings.HasPrefix(s.Ctx, "cmpd") {
+		if s.Ctx == "ifa" {
+			ck = fmt.Sprintf("(CBinIfa %s)", c02CoqOp[s.Op])
+		} else if strings.HasPrefix(s.Ctx, "cmpd") {
 			ck = fmt.Sprintf("(CAsg %s %s)", c02CoqOp[s.Op], form)
 		} else {
 			ck = fmt.Sprintf("(CBin %s %s)", c02CoqOp[s.Op], form)
@@ -1163,6 +1206,9 @@ func c02CoqCase(id int, s *c02Site, i int, impl, ref string) (kind, text string)
 			f = "FIface"
 		}
 		ck = fmt.Sprintf("(CUn %s %s)", o, f)
+		if s.Ctx == "ifa" {
+			ck = fmt.Sprintf("(CUnIfa %s)", o)
+		}
 	case "incdec":
 		ck = fmt.Sprintf("(CIncDec %s)", coqBool(s.Op == "++"))
 	case "conv":
